@@ -30,32 +30,87 @@ func TestShrink(t *testing.T) {
 	if err := json.Unmarshal(b, &raw); err != nil {
 		t.Fatal(err)
 	}
-	c := &dbm.Case{}
-	if err := json.Unmarshal(raw.Case, c); err != nil || c.Ops == nil {
-		t.Skip("not a dbm case")
-	}
 	runs := envInt("VERIF_SHRINK_RUNS", 6)
 	lastMsg := raw.Message
+	budget := time.Duration(envInt("VERIF_SHRINK_SECONDS", 30)) * time.Second
+	// run(base) executes the engine the case belongs to with the dbm case replaced by base;
+	// wrap(base) rebuilds the full case for saving.
+	var base *dbm.Case
+	var run func(b *dbm.Case) error
+	var wrap func(b *dbm.Case) any
+	var probe struct {
+		Base *dbm.Case `json:"base"`
+		Ops  []dbm.Op  `json:"ops"`
+	}
+	json.Unmarshal(raw.Case, &probe)
+	switch {
+	case probe.Base != nil && raw.Property == "C19":
+		rc := &RCase{}
+		json.Unmarshal(raw.Case, rc)
+		// first try to drop the continued-use steps and extra damage
+		try := func(mod func(x *RCase)) {
+			x := *rc
+			mod(&x)
+			for i := 0; i < 2; i++ {
+				if _, err := runRecover(&x); err != nil {
+					*rc = x
+					return
+				}
+			}
+		}
+		try(func(x *RCase) { x.After = nil })
+		for len(rc.Damage) > 1 {
+			n := len(rc.Damage)
+			try(func(x *RCase) { x.Damage, x.DmgOff = x.Damage[1:], x.DmgOff[1:] })
+			if len(rc.Damage) == n {
+				break
+			}
+		}
+		base = rc.Base
+		run = func(b *dbm.Case) error { x := *rc; x.Base = b; _, err := runRecover(&x); return err }
+		wrap = func(b *dbm.Case) any { x := *rc; x.Base = b; return &x }
+	case probe.Base != nil && raw.Property == "C18":
+		lc := &LCase{}
+		json.Unmarshal(raw.Case, lc)
+		for len(lc.Scenes) > 1 { // keep only the failing scene if possible
+			x := *lc
+			x.Scenes = lc.Scenes[1:]
+			if _, err := runLifecycle(&x); err == nil {
+				break
+			}
+			*lc = x
+		}
+		base = lc.Base
+		run = func(b *dbm.Case) error { x := *lc; x.Base = b; _, err := runLifecycle(&x); return err }
+		wrap = func(b *dbm.Case) any { x := *lc; x.Base = b; return &x }
+	case probe.Ops != nil:
+		base = &dbm.Case{}
+		json.Unmarshal(raw.Case, base)
+		run = func(b *dbm.Case) error { _, err := dbm.Run(b); return err }
+		wrap = func(b *dbm.Case) any { return b }
+	default:
+		t.Skip("no structural shrinker for this case type")
+	}
 	fails := func(n *dbm.Case) bool {
 		r := runs
 		if n.Det {
 			r = 2
 		}
 		for i := 0; i < r; i++ {
-			if _, err := dbm.Run(n); err != nil {
+			if err := run(n); err != nil {
 				lastMsg = err.Error()
 				return true
 			}
 		}
 		return false
 	}
-	if !fails(c) {
+	if !fails(base) {
 		fmt.Println("SHRINK: case does not reproduce; keeping it as is")
 		return
 	}
-	s := dbm.Shrink(c, fails, time.Duration(envInt("VERIF_SHRINK_SECONDS", 30))*time.Second)
+	s := dbm.Shrink(base, fails, budget)
 	fails(s)
-	fi = failInfo{Property: raw.Property, Message: lastMsg, Case: s}
+	fi = failInfo{Property: raw.Property, Message: lastMsg, Case: wrap(s)}
 	saveJSON("VERIF_SHRINK_OUT", fi)
-	fmt.Printf("SHRINK: %d ops -> %d ops\n", len(c.Ops), len(s.Ops))
+	fmt.Printf("SHRINK: %d ops -> %d ops\n", len(base.Ops), len(s.Ops))
 }
